@@ -12,6 +12,11 @@ package doc
 //@   props C17
 //@ func find
 //@   props C17
+//   (not verified: that match returns blocks whose matches satisfy Show's precondition -
+//   the per-block match lists are slices of slices updated in place, for which the engine
+//   has no frame; the precondition is assumed at this call and listed as an assumption)
+//@   skip pre:Show:matches-in-text
+//@   skip pre:Show:matches-apart
 //@ func Source
 //@   props C17
 //@ func symbols
@@ -20,3 +25,61 @@ package doc
 //@   props C17
 //@ func match
 //@   props C17
+//@   ghostarg sortAndMergeMatches n = len(b.Text)
+//   (assumed, as above: every match list passed on lies inside its block's text)
+//@   skip pre:sortAndMergeMatches:in-text
+
+// doc:find shows, for every matching block, excerpts cut out of the block text at
+// the match positions. Every cut is inside the text whatever the queries are:
+// the merged matches are in the text, in order and apart (sortAndMergeMatches),
+// and given such matches every slice expression of Show is in range.
+//@ spec fn inrange(ms []diag.Ranging, n int) bool = forall k int :: 0 <= k && k < len(ms) ==> 0 <= ms[k].From && ms[k].From <= ms[k].To && ms[k].To <= n
+//@ spec fn apart(ms []diag.Ranging) bool = forall k int :: 0 <= k && k + 1 < len(ms) ==> ms[k].To < ms[k+1].From
+
+//@ func firstSentenceStart
+//@   props C17
+//@   pure
+//@   requires 0 <= from && from <= len(s)
+//@   ensures from <= result && result <= len(s)
+//@ func lastSentenceStart
+//@   props C17
+//@   pure
+//@   requires 0 <= upto && upto <= len(s)
+//@   ensures 0 <= result && result <= upto
+//@ func firstLineEnd
+//@   props C17
+//@   pure
+//@   requires 0 <= from && from <= len(s)
+//@   ensures from <= result && result <= len(s)
+//@ func lastLineStart
+//@   props C17
+//@   pure
+//@   requires 0 <= upto && upto <= len(s)
+//@   ensures 0 <= result && result <= upto
+
+//@ func matchedBlock.Show
+//@   props C17
+//@   pure
+//@   requires [matches-in-text] inrange(b.matches, len(b.block.Text))
+//@   requires [matches-apart] apart(b.matches)
+//@   loop 1 invariant 0 <= lastTo && lastTo <= lastLineTo && lastLineTo <= len(b.block.Text)
+//@   loop 1 invariant iter1 == 0 ==> lastTo == 0
+//@   loop 1 invariant iter1 > 0 ==> lastTo == b.matches[iter1-1].To
+//@   loop 2 invariant 0 <= lastTo && lastTo <= lastSentenceTo && lastSentenceTo <= len(b.block.Text)
+//@   loop 2 invariant iter2 == 0 ==> lastTo == 0
+//@   loop 2 invariant iter2 > 0 ==> lastTo == b.matches[iter2-1].To
+
+// n: the length of the text the matches were found in (ghost).
+//@ func sortAndMergeMatches
+//@   props C17
+//@   ghost n int
+//@   requires [non-empty] len(rs) >= 1
+//@   requires [in-text] inrange(rs, n)
+//@   ensures [merged-in-text] len(result) >= 1 && inrange(result, n)
+//@   ensures [merged-apart] apart(result)
+//@   loop 1 invariant 1 <= j && j <= len(rs) && 0 <= i && i < j
+//@   loop 1 invariant inrange(rs, n)
+//@   loop 1 invariant forall k int :: 0 <= k && k < i ==> rs[k].To < rs[k+1].From
+//@   loop 1 invariant rs[i].To == rs[j-1].To
+//@   loop 1 invariant forall k int :: j <= k && k < len(rs) ==> rs[i].From <= rs[k].From
+//@   loop 1 invariant forall a int :: j <= a && a < len(rs) ==> (forall b int :: a < b && b < len(rs) ==> rs[a].From <= rs[b].From)
